@@ -454,6 +454,36 @@ def run_synthetic(seed, res):
     res.sample({"synthetic_values": n, "access_combinations": "all of width 1..3 over 6 access classes"})
 
 
+def run_refusals(res):
+    """Arguments that cannot be written are refused before anything is sent: wrong kind of address, a short write longer
+    than the value, a string longer than its field."""
+    from dali import address
+    from models.bus import Bus
+    import dali.memory.oem as oem
+    _mods()
+    cls = oem.LuminaireColor
+    w = len(cls.locations)
+    cases = []
+    for bad in (address.GearGroup(1), address.GearBroadcast(), address.DeviceBroadcast(), "3", None, 1.5):
+        cases.append((f"write_raw(addr={bad!r})", lambda bad=bad: cls.write_raw(bad, bytes(w)), TypeError))
+    cases.append(("short write longer than the value", lambda: cls.write_raw(1, bytes(w + 1), allow_short_write=True), ValueError))
+    cases.append(("short write much longer", lambda: cls.write_raw(1, bytes(2 * w), allow_short_write=True), ValueError))
+    cases.append(("string longer than the field", lambda: cls.write(1, "x" * (w + 1)), ValueError))
+    cases.append(("non-ASCII string", lambda: cls.write(1, "caf\u00e9"), (ValueError, UnicodeError)))
+    for what, mk, exc in cases:
+        bus = Bus([], bound=50)
+        res.evaluations += 1
+        res.hit("refusals_checked")
+        try:
+            bus.run_sequence(mk())
+            res.violation("C10/refusal/accepted", f"{what} was accepted ({bus.n_commands} commands sent)", {"case": what})
+        except exc:
+            if bus.n_commands:
+                res.violation("C10/refusal/sent-commands", f"{what}: {bus.n_commands} commands were sent before refusing", {"case": what})
+        except Exception as e:
+            res.violation(f"C10/refusal/wrong-exception/{type(e).__name__}", f"{what} raised {type(e).__name__}: {e}", {"case": what})
+
+
 def run_interleaved(desc, seed, res):
     from props import pairs
     from models.bus import Bus
@@ -492,6 +522,7 @@ def run_shard(desc, tier, seed):
         run_first_use(desc, tier, seed, res)
     elif desc["bank"] == "interleaved":
         run_interleaved(desc, seed, res)
+        run_refusals(res)
     else:
         run_bank(desc, tier, seed, res)
     return res
